@@ -83,7 +83,7 @@ def lt_eq_cong(a, b, c):
 class _Laws(Contract):
   prop = 'C06'
   target = f'{SB}:eq'
-  inline = (f'{SB}:eq', f'{SB}:ne', f'{SB}:lt', f'{SB}:gt', f'{SB}:_type_order')
+  inline = (f'{SB}:eq', f'{SB}:ne', f'{SB}:lt', f'{SB}:gt', f'{SB}:_type_order', f'{SB}:_sym_elements')
   variants = ('list', 'tuple')
   fn = None
   nargs = 2
